@@ -361,6 +361,43 @@ def wrappers_chunk(args):
     return ('wrappers', g, 'all'), n, bad
 
 
+WRAPFIRST = r'''
+import sys, json, os
+sys.path.insert(0, os.environ.get('ATHLIB_TREE', '/repo'))
+import athlib
+from athlib.wma.agegrader import AgeGrader
+out = []
+for yr, table in ((2015, '2015'), (2023, '2023')):
+    # the wrappers FIRST (nothing has used the package-level graders yet), then own grader objects for the same table
+    w = [athlib.wma_age_factor('m', 50, '100', year=yr), athlib.wma_world_best('m', '100', year=yr), athlib.wma_age_grade('m', 50, '100', 12.0, year=yr),
+         athlib.wma_age_factor('f', 62, 'HJ', year=yr), athlib.wma_world_best('f', 'MAR', year=yr)]
+    g = AgeGrader(table)
+    o = [g.calculate_factor('m', 50, '100'), g.world_best('m', '100'), g.calculate_age_grade('m', 50, '100', 12.0),
+         g.calculate_factor('f', 62, 'HJ'), g.world_best('f', 'MAR')]
+    out.append([yr, w, o])
+print(json.dumps(out))
+'''
+
+
+def wrappers_first_use(run):
+    """in a fresh interpreter, the package-level functions asked with year=2015 / 2023 BEFORE anything else has touched the graders
+    answer from that year's table (the same numbers as an AgeGrader built for it)"""
+    import subprocess, sys, json, os
+    name = 'package-level-wrappers-answer-from-the-table-of-the-year-on-first-use'
+    r = subprocess.run([sys.executable, '-c', WRAPFIRST], capture_output=True, text=True, cwd=os.environ.get('ATHLIB_TREE', '/repo'), timeout=120)
+    if r.returncode != 0 or not r.stdout.strip():
+        run.record(name, 'ground', 'refuted', 'ground-evaluation', 0.0, 'wrappers')
+        run.violation(name, dict(call='wma_age_factor / wma_world_best / wma_age_grade with year=2015, 2023 first thing in a fresh interpreter',
+                                 observed='raises: %s' % r.stderr.strip().splitlines()[-1:] , input=['wrapfirst']), True)
+        return
+    res = json.loads(r.stdout.strip().splitlines()[-1])
+    bad = [(yr, w, o) for yr, w, o in res if w != o]
+    run.record(name, 'ground', 'refuted' if bad else 'proved', 'ground-evaluation', 0.0, 'wrappers')
+    if bad:
+        yr, w, o = bad[0]
+        run.violation(name, dict(call='the package-level functions with year=%r, first thing in a fresh interpreter' % yr, observed=w, required=o, input=['wrapfirst']), True)
+
+
 def _work(job):
     if job[0] == 'wrap':
         return ('ground',) + wrappers_chunk(job[1])
@@ -375,6 +412,16 @@ def _work(job):
 
 def replay(rep):
     inp = rep['input']
+    if inp and inp[0] == 'wrapfirst':
+        class _R(object):
+            violations = []
+            def record(self, *a, **k): pass
+            def violation(self, name, d, bad): self.violations.append(d)
+        r_ = _R()
+        wrappers_first_use(r_)
+        print('replay %s: %r' % (rep['obligation'], r_.violations[:1]))
+        print('VIOLATION reproduced' if r_.violations else 'not reproduced on this tree')
+        return 1 if r_.violations else 0
     ag = _ag()
     if inp[0] == 'shape':
         _, year, g, age, ev = inp
@@ -441,6 +488,7 @@ def main(tier, seed):
                     continue
                 J.append(('sym', (year, g, ri)))
                 J.append(('gr', (year, g, ri)))
+    wrappers_first_use(run)
     J += [('ath', ('m',)), ('ath', ('f',)), ('wrap', ('m',)), ('wrap', ('f',))]
     results = report.pool_map(_work, J)
     gn = 0
